@@ -168,7 +168,7 @@ PROPS = {
         "assumptions": COMMON_ASSUMPTIONS,
     },
     "C12": {
-        "mc": ["hid_hide"], "gen": ["hide", "hide_reveal", "reveal", "text_classes", "reveal_plain"],
+        "mc": ["hid_hide"], "gen": ["hide", "hide_reveal", "reveal", "history", "text_classes", "reveal_plain"],
         "rule": "hidden values compared with RFC 2661 s4.3 computed by TLC with MD5 written in TLA+ (RFC 1321 vectors "
                 "assumed at load); block counts 1..8 (thorough: ..63); reveal of arbitrary hidden values likewise; "
                 "TLC: declarative definition = in-place loops, HiddenLength",
@@ -375,6 +375,9 @@ def owns(prop, ev, tag):
         return e == "reveal" and ev.get("v", {}).get("k") != "Hidden"
     if prop == "C12":
         # (a panic where the reference construction yields a value is a difference from the reference too)
+        # ("the output depends on nothing but these inputs": a hide whose result differs between histories / threads)
+        if tag == "nondeterministic":
+            return e in ("hide", "hide_reveal")
         if e == "hide":
             return died or tag in ("hide-value", "hide-length", "hide-type", "hide-wire-form", "unexpected-panic")
         if e == "hide_reveal":
